@@ -89,3 +89,11 @@ Fixpoint filter_rows {A} (e : expr) (fs : list field) (rows : list (A * row)) : 
       do rest <- filter_rows e fs r;
       match v with VBool true => Ok ((a, rw) :: rest) | _ => Ok rest end
   end.
+
+(* column names of a new table must be pairwise distinct (RelationService.createTable refuses a
+   name used twice: a tuple is keyed by column name) *)
+Fixpoint names_distinct (l : list string) : bool :=
+  match l with
+  | [] => true
+  | a :: r => negb (existsb (String.eqb a) r) && names_distinct r
+  end.
